@@ -507,7 +507,11 @@ class Doist(tyming.Tymist):
             doers is list of doers to add as extension.
 
         """
-        doers = [doer for doer in doers if doer not in self.doers] # ensure unique
+        fresh = []  # ensure unique both with respect to .doers and within doers
+        for doer in doers:
+            if doer not in self.doers and doer not in fresh:
+                fresh.append(doer)
+        doers = fresh
         deeds = self.enter(doers=doers)  # provide fresh deeds for new doers
         self.doers.extend(doers)
         self.deeds.extend(deeds)
@@ -523,7 +527,10 @@ class Doist(tyming.Tymist):
             doers is list of doers to remove.
 
         """
-        rdoers = [doer for doer in doers if doer in self.doers] # ensure in .doers
+        rdoers = []  # ensure in .doers and each only once
+        for doer in doers:
+            if doer in self.doers and doer not in rdoers:
+                rdoers.append(doer)
         rdeeds = deque()  # fresh deque for deeds to remove
         deeds = self.deeds  # edit update self.deeds in place
         ran = 0  # count of removed deeds past marker so already ran this recur
@@ -1397,7 +1404,11 @@ class DoDoer(Doer):
             doers is list of doers to add as extension.
 
         """
-        doers = [doer for doer in doers if doer not in self.doers] # ensure unique
+        fresh = []  # ensure unique both with respect to .doers and within doers
+        for doer in doers:
+            if doer not in self.doers and doer not in fresh:
+                fresh.append(doer)
+        doers = fresh
         deeds = self.enter(doers=doers)  # provide fresh deeds for new doers
         self.doers.extend(doers)
         self.deeds.extend(deeds)
@@ -1413,7 +1424,10 @@ class DoDoer(Doer):
             doers is list of doers to remove.
 
         """
-        rdoers = [doer for doer in doers if doer in self.doers] # ensure in .doers
+        rdoers = []  # ensure in .doers and each only once
+        for doer in doers:
+            if doer in self.doers and doer not in rdoers:
+                rdoers.append(doer)
         rdeeds = deque()  # fresh deque for deeds to remove
         deeds = self.deeds  # edit update self.deeds in place
         ran = 0  # count of removed deeds past marker so already ran this recur
